@@ -187,8 +187,8 @@ struct Global {
   int fair;
   uint64_t quantum;
   // faults ordered per task
-  size_t fault_idx[kMaxTasks][64];
-  size_t fault_cnt[kMaxTasks];
+  size_t fault_idx[kMaxCallerTasks][64];
+  size_t fault_cnt[kMaxCallerTasks];
   // controller
   int ctl_wake;
   int ready;
@@ -206,6 +206,9 @@ struct Global {
   // regions
   Region regions[kMaxRegions];
   size_t nregions;
+  // threads of the code under test that are still waiting when a run ends can be taken into the next run
+  int prev_ntasks;
+  uint32_t carry_vc[kClockN];
 };
 
 Global g;
@@ -311,8 +314,12 @@ bool release_held() {
   }
   if (!any) {
     // a timed condition wait times out when nothing else in the system can make progress
+    bool callers_done = true;
+    for (int i = 0; i < g.ntasks; ++i)
+      if (!g.tasks[i].dynamic && g.tasks[i].state != T_DONE) callers_done = false;
     for (int i = 0; i < g.ntasks; ++i) {
       Task& t = g.tasks[i];
+      if (t.dynamic && callers_done) continue;  // a polling worker does not keep a finished run alive
       if (t.state == T_BLOCKED && t.timed_wait) {
         t.state = T_RUN;
         t.blocked_on = 0;
@@ -489,7 +496,11 @@ void forced_switch(Task* t, int cause) {
       g.active = 0;
       unpark(&g.ctl_wake);
       if (cause == 2) return;
-      park_forever();
+      // stays parked like any switched-out task: the next run of this process may take it over
+      park(&t->wake);
+      g.res->cur_task = t->id;
+      g.res->cur_op = t->cur_op;
+      return;
     }
     g.res->deadlock = 1;
     end_run_abnormally();
@@ -556,7 +567,7 @@ void yield_point(Task* t, int kind, unsigned size, uint32_t pc) {
       }
     } else {
       // --- faults attached to this point ---
-      while (t->fault_head < g.fault_cnt[t->id]) {
+      while (t->id < g.cfg.ntasks && t->fault_head < g.fault_cnt[t->id]) {  // faults are attached to caller threads
         Fault& f = g.cfg.faults[g.fault_idx[t->id][t->fault_head]];
         int c = cmp_pos(f.op, f.off, t->cur_op, off);
         if (c > 0) break;
@@ -689,7 +700,8 @@ SyncObj* sync_lookup(uintptr_t addr, int kind, bool create) {
 }
 
 inline void vc_join(uint32_t* dst, const uint32_t* src) {
-  for (int i = 0; i < kClockN; ++i)
+  const int n = g.ntasks > g.prev_ntasks ? g.ntasks : g.prev_ntasks;  // components beyond are zero
+  for (int i = 0; i < n; ++i)
     if (src[i] > dst[i]) dst[i] = src[i];
 }
 inline void acquire(Task* t, SyncObj* s) { vc_join(t->vc, s->vc); }
@@ -945,6 +957,14 @@ void* dyn_task_main(void* arg) {
   return ret;
 }
 
+void make_absent(int i) {
+  Task& t = g.tasks[i];
+  __real_memset(&t, 0, sizeof t);
+  t.id = i;
+  t.state = T_DONE;
+  t.cur_op = -1;
+}
+
 int create_dynamic_task(Task* creator, pthread_t* th, void* (*fn)(void*), void* arg, uint32_t pc) {
   creator->in_rt = 1;
   yield_point(creator, EV_MUTEX, 11, pc);
@@ -952,7 +972,7 @@ int create_dynamic_task(Task* creator, pthread_t* th, void* (*fn)(void*), void* 
   // clock component continues, i.e. the new thread counts as a continuation of the old one
   int id = -1;
   uint32_t epoch0 = 0;
-  for (int i = g.cfg.ntasks; i < g.ntasks && g.ntasks >= kMaxTasks; ++i) {  // only once all slots have been used
+  for (int i = kMaxCallerTasks; i < g.ntasks && g.ntasks >= kMaxTasks; ++i) {  // only once all slots have been used
     Task& o = g.tasks[i];
     if (o.dynamic && o.state == T_DONE && (o.reaped || o.detached)) {
       id = i;
@@ -962,7 +982,11 @@ int create_dynamic_task(Task* creator, pthread_t* th, void* (*fn)(void*), void* 
   }
   bool fresh = id < 0;
   if (fresh) {
-    if (g.ntasks >= kMaxTasks) unsupported(creator, "more than 64 live threads in one run");
+    if (g.ntasks >= kMaxTasks) unsupported(creator, "thread limit: more than 250 live threads in one run");
+    // created threads are numbered from kMaxCallerTasks in every run, whatever the number of callers
+    // (so that a thread keeps its number from the preparation run into the simulated interval);
+    // the slots in between stay absent
+    for (; g.ntasks < kMaxCallerTasks; ++g.ntasks) make_absent(g.ntasks);
     id = g.ntasks;
   }
   Task& t = g.tasks[id];
@@ -1096,16 +1120,20 @@ void op_end() {
 
 void run(const Config& cfg, TaskBody body, void* arg, Result& res) {
   resolve_real();
-  if (cfg.ntasks < 1 || cfg.ntasks > kMaxTasks) die("sim: bad ntasks %d", cfg.ntasks);
+  if (cfg.ntasks < 1 || cfg.ntasks > kMaxCallerTasks) die("sim: bad ntasks %d", cfg.ntasks);
   // fresh tables for every run
+  int carried_hi = 0;
   if (!g.sync) {
     g.sync = (SyncObj*)xmmap(kSyncSlots * sizeof(SyncObj));
     g.pages = (PageEnt*)xmmap(kPageSlots * sizeof(PageEnt));
     g.cell_arena = (char*)xmmap(kCellArena);
     g.swlog = (Switch*)xmmap(kMaxSwitches * sizeof(Switch));
   } else {
-    // a process normally performs one run; re-running reuses cleared tables
-    __real_memset(g.sync, 0, kSyncSlots * sizeof(SyncObj));
+    // re-running reuses cleared tables; when threads are taken over from the previous run the
+    // synchronisation objects they are waiting on (and hold pointers to) are kept
+    for (int i = kMaxCallerTasks; i < g.prev_ntasks && cfg.adopt_threads; ++i)
+      if (g.tasks[i].dynamic && g.tasks[i].state == T_BLOCKED) carried_hi = i + 1;
+    if (!carried_hi) madvise(g.sync, kSyncSlots * sizeof(SyncObj), MADV_DONTNEED);  // reads as zero again
     __real_memset(g.pages, 0, kPageSlots * sizeof(PageEnt));
     madvise(g.cell_arena, g.cell_used, MADV_DONTNEED);
   }
@@ -1118,6 +1146,24 @@ void run(const Config& cfg, TaskBody body, void* arg, Result& res) {
   res.n_switches = 0;
   if (cfg.sw_count) *cfg.sw_count = 0;
   g.ntasks = cfg.ntasks;
+  if (carried_hi) {
+    for (int i = cfg.ntasks; i < kMaxCallerTasks; ++i) make_absent(i);
+    for (int i = kMaxCallerTasks; i < carried_hi; ++i) {
+      Task& t = g.tasks[i];
+      if (t.dynamic && t.state == T_BLOCKED) {
+        res.adopted_threads++;
+        t.cur_op = -1;
+        t.local_events = 0;
+        t.op_start = 0;
+        continue;
+      }
+      make_absent(i);
+      t.dynamic = 1;  // a free slot for the next created thread
+      t.reaped = 1;
+      t.vc[i] = g.carry_vc[i];
+    }
+    g.ntasks = carried_hi;
+  }
   g.step = 0;
   g.ops_done = 0;
   g.rng.s = mix64(cfg.seed ^ 0x5eed5eed5eedull);
@@ -1155,7 +1201,8 @@ void run(const Config& cfg, TaskBody body, void* arg, Result& res) {
     t.id = i;
     t.state = T_RUN;
     t.cur_op = -1;
-    t.vc[i] = 1;
+    if (carried_hi) __real_memcpy(t.vc, g.carry_vc, sizeof t.vc);  // everything the previous run did happened before
+    t.vc[i]++;
     size_t sz = cfg.stack_bytes;
     char* mem = (char*)mmap(nullptr, sz + 8192, PROT_NONE, MAP_PRIVATE | MAP_ANONYMOUS | MAP_NORESERVE, -1, 0);
     if (mem == MAP_FAILED) die("sim: stack mmap failed");
@@ -1236,6 +1283,8 @@ void run(const Config& cfg, TaskBody body, void* arg, Result& res) {
   g.active = 0;
 
   if (g.run_over) return;  // abnormal end: task threads stay parked, caller must _exit
+  g.prev_ntasks = g.ntasks;
+  for (int i = 0; i < g.ntasks; ++i) vc_join(g.carry_vc, g.tasks[i].vc);
   __atomic_store_n(&g.release_gate, 1, __ATOMIC_RELEASE);
   futex(&g.release_gate, FUTEX_WAKE_PRIVATE, 1 << 30);
   for (int i = 0; i < cfg.ntasks; ++i) real_pthread_join(g.tasks[i].th, nullptr);
@@ -1758,9 +1807,16 @@ static int cond_signal_model(Task* t, pthread_cond_t* c, bool all, uint32_t pc) 
   yield_point(t, EV_MUTEX, 5, pc);
   SyncObj* cs = sync_lookup((uintptr_t)c, SK_ATOMIC, true);
   release_join(t, cs);
+  // notify_one may wake ANY waiter: which one is a function of the simulated time of the call, so
+  // that it varies from schedule to schedule and is the same whenever the schedule is replayed
+  int nwait = 0;
+  for (int i = 0; i < g.ntasks; ++i)
+    if (g.tasks[i].state == T_BLOCKED && g.tasks[i].blocked_on == (uintptr_t)c) nwait++;
+  int pick = (!all && nwait > 1) ? (int)(mix64(g.step ^ ((uintptr_t)c << 20)) % (uint64_t)nwait) : 0;
   for (int i = 0; i < g.ntasks; ++i) {
     Task& w = g.tasks[i];
     if (w.state == T_BLOCKED && w.blocked_on == (uintptr_t)c) {
+      if (!all && pick-- > 0) continue;
       w.state = T_RUN;
       w.blocked_on = 0;
       w.cond_signalled = 1;
@@ -1974,7 +2030,10 @@ long syscall(long number, ...) {
     SyncObj* s = sync_lookup((uintptr_t)a, SK_ATOMIC, true);
     release_join(t, s);
     long n = 0;
-    for (int i = 0; i < g.ntasks && n < c; ++i) {
+    // when fewer waiters are woken than are waiting, which ones is a function of simulated time
+    const int start = (int)(mix64(g.step ^ ((uintptr_t)a << 20)) % (uint64_t)g.ntasks);
+    for (int k = 0; k < g.ntasks && n < c; ++k) {
+      const int i = (start + k) % g.ntasks;
       Task& w = g.tasks[i];
       if (w.state == T_BLOCKED && w.blocked_on == ((uintptr_t)a | 1)) {
         w.state = T_RUN;
